@@ -22,8 +22,8 @@ ASSUMPTIONS = [
     "lines of one list hold disjoint groups of the sorted set (the canonical way devices print long lists)",
 ]
 EXHAUSTIVE = {"quick": True, "thorough": False}
-FLOORS = {"quick": {"patches_simulated": 20000, "commands_parsed": 20000, "multi_line_cases": 10000, "helper_roundtrips": 2000, "block_cases": 10000, "block_cases_with_changed_blocks": 5000},
-          "thorough": {"patches_simulated": 600000, "commands_parsed": 600000, "multi_line_cases": 300000, "helper_roundtrips": 50000, "block_cases": 300000, "block_cases_with_changed_blocks": 150000}}
+FLOORS = {"quick": {"patches_simulated": 20000, "commands_parsed": 20000, "multi_line_cases": 10000, "helper_roundtrips": 2000, "block_cases": 10000, "block_cases_with_changed_blocks": 5000, "lag_member_cases": 1500},
+          "thorough": {"patches_simulated": 600000, "commands_parsed": 600000, "multi_line_cases": 300000, "helper_roundtrips": 50000, "block_cases": 300000, "block_cases_with_changed_blocks": 150000, "lag_member_cases": 40000}}
 U_QUICK = [2, 3, 4, 7, 8]
 U_THOROUGH = [2, 3, 4, 7, 8, 10, 11, 20]
 
@@ -160,7 +160,11 @@ def read_command(cmd, prefix, syntax, neg):
     return ("add", parse_list(rest, syn))
 
 
-def check_case(kind, old_groups, new_groups, acc):
+LAG_LINE = "channel-group 1 mode active"
+
+
+def check_case(kind, old_groups, new_groups, acc, lag=None):
+    """lag: None | 'leaving' | 'joining' | 'staying' - the port is (also) a member of a port-channel on that side"""
     from annet.api import _diff_and_patch
     from annet.annlib.netdev.views.hardware import HardwareView
     from annet.vendors import registry_connector
@@ -171,8 +175,11 @@ def check_case(kind, old_groups, new_groups, acc):
     S_old = set(e for g in old_groups for e in g)
     S_new = set(e for g in new_groups for e in g)
     lo, ln = lines_for(old_groups, prefix, syntax), lines_for(new_groups, prefix, syntax)
-    old, new = build_tree(path, lo), build_tree(path, ln)
-    w = {"kind": kind, "model": model, "old_groups": old_groups, "new_groups": new_groups, "old_lines": lo, "new_lines": ln}
+    old = build_tree(path, lo + ([LAG_LINE] if lag in ("leaving", "staying") else []))
+    new = build_tree(path, ln + ([LAG_LINE] if lag in ("joining", "staying") else []))
+    w = {"kind": kind, "model": model, "old_groups": old_groups, "new_groups": new_groups, "old_lines": lo, "new_lines": ln, "lag": lag}
+    if lag:
+        acc.count("lag_member_cases")
     try:
         _, patch = _diff_and_patch(c01.Dev(hw), old, new, None, None, False)
         cmds = [p for p in fmt.cmd_paths(patch)]
@@ -183,7 +190,7 @@ def check_case(kind, old_groups, new_groups, acc):
     multi_line = len(old_groups) >= 2 or len(new_groups) >= 2
     if multi_line:
         acc.count("multi_line_cases")
-    acc.case([kind, lo, ln], nontrivial=(S_old != S_new and multi_line))
+    acc.case([kind, lo, ln, lag], nontrivial=(S_old != S_new and multi_line))
     S = set(S_old)
     keep = S_old & S_new
     w["commands"] = [list(p) for p in cmds]
@@ -231,6 +238,9 @@ def run_kind(spec, acc):
                 combos = rng.sample(combos, 4)
             for a, b in combos:
                 check_case(kind, a, b, acc)
+                # (NX-OS keeps switchport lines on port-channel members; the Catalyst logic drops them by design: members inherit them)
+                if kind == "nexus-swtrunk" and i % 2 == 0:
+                    check_case(kind, a, b, acc, lag=("leaving", "joining", "staying")[(i // 2) % 3])
     # random large sets with chunking (>10 / >5 / >15 ranges per command)
     for _ in range(40 if tier == "quick" else 1500):
         n1, n2 = rng.randint(0, 60), rng.randint(0, 60)
@@ -464,7 +474,7 @@ def run_shard(spec, acc):
             back = lambda side: (side[0], {int(k): v for k, v in side[1].items()})
             check_blocks_case(w["kind"], back(w["old_side"]), back(w["new_side"]), acc)
             return
-        check_case(w["kind"], w["old_groups"], w["new_groups"], acc)
+        check_case(w["kind"], w["old_groups"], w["new_groups"], acc, lag=w.get("lag"))
         return
     if spec["mode"] == "blocks":
         return run_blocks(spec, acc)
